@@ -51,7 +51,13 @@ def run_case(c):
         cl = factory()
         await cl.connect("127.0.0.1", W.CTL_PORT)
         await cl.login("u1", "x")
-        P = lambda segs: "/" + "/".join(segs)
+        if c.get("relative"):
+            # address everything relatively: from the parent for the directory, from the directory for the files
+            if prefix:
+                await cl.change_directory("/" + "/".join(prefix))
+            P = lambda segs: "/".join(segs[len(prefix):]) if len(segs) > len(prefix) else "."
+        else:
+            P = lambda segs: "/" + "/".join(segs)
         step = "start"
         try:
             step = "mkd"
@@ -117,7 +123,9 @@ def run(tier, seed):
     for n in ns:
         depth = rng.choice([1, 2, 3])
         f, g = rng.choice([("f", "g"), (n, "g"), ("f", n + "2"), (n, n + "x")])
-        cases.append({"name": n, "depth": depth, "fname": f, "gname": g})
+        cases.append({"name": n, "depth": depth, "fname": f, "gname": g, "relative": False})
+        if rng.random() < 0.5 or n != n.lstrip() or n[:1] in "-\"'":
+            cases.append({"name": n, "depth": depth, "fname": f, "gname": g, "relative": True})
     results = corecheck.pool().map(run_case, cases, chunksize=8)
     jc = []
     for c, r in zip(cases, results):
@@ -156,10 +164,10 @@ def run(tier, seed):
             chk.violation(sig, {"name": cases[i]["name"], "first_unmatched": results[i]["trace"][m]}, {"case": cases[i]})
     chk.cov["rule"] = ("names = all sequences of <= %d character classes out of %d (plain, blank, quote, doubled quote, apostrophe, "
                        "semicolon, '=', dash, digits and reply-code look-alikes, backslash, percent directives, dot, non-ASCII, "
-                       "combining, astral, MLSx-fact and ' -> ' look-alikes), valid per the statement, at nesting depth 1..3, also used as "
+                       "combining, astral, MLSx-fact and ' -> ' look-alikes), valid per the statement, at nesting depth 1..3, addressed by absolute and by relative paths, also used as "
                        "file names; each goes through a 14-step tour of the real client methods against the real server; Names.tla in "
                        "TLC compares every returned value and the backend tree, FtpCore validates the wire trace; distinct = names"
                        % (2 if tier == "quick" else 3, len(CLASSES)))
-    chk.cov["distinct_nontrivial"] = len(ns)
+    chk.cov["distinct_nontrivial"] = len(cases)
     chk.sample({"name": cases[10]["name"], "depth": cases[10]["depth"]})
     return chk.finish()
